@@ -19,6 +19,7 @@ def run(tier, seed):
     mixed = ['rpc', 'bcast', 'kill', 'pause', 'play', 'resume']
     rk = {'comm': True}
     fk = dict(base='ProcessFaults', spec='FSpec')
+    down = core_model.family(['P12', 'P02'], out_missing=['P12', 'P02'])      # FINISHED reached through the StateEntryFailed downgrade
     if tier == 'quick':
         mc = [dict(name='C16_msgs', progs=C.fam(['P01', 'P03', 'P04', 'P05', 'P07', 'P08', 'P09', 'P12']), plans=[[]], alphabet=msgs, k=3, invariants=INV, overrides=OV),
               dict(name='C16_mixed', progs=C.fam(['P03', 'P04', 'P09']), plans=[[]], alphabet=mixed, k=3, invariants=INV, overrides=OV),
@@ -27,7 +28,9 @@ def run(tier, seed):
         rp = [dict(name='C16_msgs', progs=C.fam(['P01', 'P03', 'P04', 'P05', 'P07', 'P08', 'P09', 'P12']), plans=[[]], alphabet=msgs, k=2, overrides=OV, run_kw=rk),
               dict(name='C16_mixed', progs=C.fam(['P03', 'P04']), plans=[[]], alphabet=['rpc', 'kill', 'play', 'pause'], k=2, overrides=OV, run_kw=rk),
               dict(name='C16_bfaults', progs=C.fam(['P02', 'P03', 'P04']), plans=bcast_fault_plans((1, 2, 3)), alphabet=['rpc', 'kill'], k=1,
-                   overrides=OV, run_kw=rk, **fk)]
+                   overrides=OV, run_kw=rk, **fk),
+              dict(name='C16_downgrade', progs=down, plans=[[]], alphabet=msgs, k=2, overrides=OV, run_kw=rk)]
+        mc.append(dict(name='C16_downgrade', progs=down, plans=[[]], alphabet=msgs, k=3, invariants=INV, overrides=OV))
     else:
         mc = [dict(name='C16_msgs', progs=C.fam(C.ALL), plans=[[]], alphabet=msgs, k=4, invariants=INV, overrides=OV),
               dict(name='C16_mixed', progs=C.fam(C.ALL), plans=[[]], alphabet=mixed, k=3, invariants=INV, overrides=OV),
@@ -36,7 +39,9 @@ def run(tier, seed):
         rp = [dict(name='C16_msgs', progs=C.fam(C.ALL), plans=[[]], alphabet=msgs, k=3, overrides=OV, run_kw=rk),
               dict(name='C16_mixed', progs=C.fam(['P03', 'P04', 'P05']), plans=[[]], alphabet=['rpc', 'bcast', 'kill', 'play'], k=3, overrides=OV, run_kw=rk),
               dict(name='C16_bfaults', progs=C.fam(C.ALL), plans=bcast_fault_plans((1, 2, 3, 4)), alphabet=['rpc', 'kill'], k=1,
-                   overrides=OV, run_kw=rk, **fk)]
+                   overrides=OV, run_kw=rk, **fk),
+              dict(name='C16_downgrade', progs=down, plans=[[]], alphabet=mixed, k=3, overrides=OV, run_kw=rk)]
+        mc.append(dict(name='C16_downgrade', progs=down, plans=[[]], alphabet=mixed, k=3, invariants=INV, overrides=OV))
     return core_check.run_check(
         PID, tier, seed, mc, rp,
         level_text='TLC exhaustive over message sequences and broadcast faults + replay on a real process with an in-process communicator',
